@@ -59,6 +59,13 @@ theorem C05_sequential_exclusive (cfg : Cfg) {tr s l s'} (hr : Run cfg tr s) (hs
     (∀ m ∈ s.flight, cfg.seq m = false) ∧ (cfg.seq n = true → s.flight = []) :=
   TM.C05_sequential_exclusive cfg hr hs hl
 
+/-- C05 inside concurrent executions: in any interleaving of several executions, the next node an execution starts obeys the
+    sequential rule with respect to the nodes in flight of THAT execution (the others are unconstrained). -/
+theorem C05_inside_concurrent_executions {V : Type} [VM.PyVal V] (es : Nat → VM.Exec V) {tr σ} (h : VM.PRun es tr σ) (i : Nat)
+    (hwf : VM.WF (es i).c) {l vs'} (hs : VM.VStep (es i).c (es i).a (σ i) l vs') {n : TM.Node} (hl : l.start = some n) :
+    (∀ m ∈ (σ i).st.flight, (es i).a.seq m = false) ∧ ((es i).a.seq n = true → (σ i).st.flight = []) :=
+  VM.C05_inside_concurrent_executions es h i hwf hs hl
+
 /-- C06: the node that starts (or is skipped) is ready and no ready node has a greater compound
     priority — "ready" stated independently of the scheduler's own `runnable` variable. -/
 theorem C06_best_ready (cfg : Cfg) (hnd : cfg.nodes.Nodup) {tr s l s'} (hr : Run cfg tr s)
@@ -627,6 +634,50 @@ theorem C18_cache_roundtrip {V : Type} [PyVal V] (w : World V) (s1 s2 : XSpec) (
       (∀ x, ρ2 x = den c1 x) ∧
       (∀ c2, c2 = seeded c1 (reused w.inst s1 c1) → ∀ n ∈ entered c2, s1.nonCache n = true ∧ w.inst.dag.isSetup n = false) :=
   VM.C18_cache_roundtrip w s1 s2 p args args2 hfrom1 hin hsel hfrom2 hsucc hwf hargs
+
+/-- C18, a link of a checkpoint chain: the caching run may itself have STARTED from a file (`σ` = the instance's results
+    overlaid with it) and checkpoint into file `p` — possibly the very file it started from; the next restart from `p`
+    returns the same results and enters only `cache_deps_of` targets of the first executor that are not setup nodes. -/
+theorem C18_checkpoint_chain {V : Type} [PyVal V] (w : World V) (s1 s2 : XSpec) (p : Nat) (σ : Results V) (args args2 : List V)
+    (hstart : xStart w s1 = some σ) (hσ : StartOK w.inst s1 σ)
+    (hin : s1.cacheIn = some p) (hsel : s2.sel = s1.sel) (hfrom2 : s2.fromCache = some p)
+    (hsucc : succeeded (xCfgOf w.inst s1 σ args) = true)
+    (hwf : WF (xCfgOf w.inst s1 σ args))
+    (hargs : ∀ x, argOf w.inst.dag.params args2 x = argOf w.inst.dag.params args x ∨
+                  (argOf w.inst.dag.params args2 x = none ∧ s1.nonCache x = false)) :
+    let c1 := xCfgOf w.inst s1 σ args
+    let w1 := (xRun w (XObj.fresh s1) args).1
+    ∃ ρ2, (xRun w1 (XObj.fresh s2) args2).2.2 = .ok ρ2 ∧
+      (∀ x, ρ2 x = den c1 x) ∧
+      (∀ n ∈ entered (seeded c1 (reused w.inst s1 c1)), s1.nonCache n = true ∧ w.inst.dag.isSetup n = false) :=
+  VM.C18_checkpoint_chain w s1 s2 p σ args args2 hstart hσ hin hsel hfrom2 hsucc hwf hargs
+
+/-- the start results of an executor that reads an existing file holding none of its `cache_deps_of` targets meet the
+    hypothesis of `C18_checkpoint_chain` (so does an executor without `from_cache`: `VM.startOK_self`) -/
+theorem C18_chain_hypothesis_met {V : Type} (w : World V) (s : XSpec) (q : Nat) (f0 : File V)
+    (hfrom : s.fromCache = some q) (hfile : w.files q = some f0) (hf : ∀ x, s.nonCache x = true → f0 x = none) :
+    xStart w s = some (overlay w.inst.res f0) ∧ StartOK w.inst s (overlay w.inst.res f0) :=
+  ⟨by simp [xStart, hfrom, hfile], VM.startOK_overlay w.inst s f0 hf⟩
+
+/-- C18, plain checkpoints (no `cache_deps_of` targets): the restart from the written file enters NO node. -/
+theorem C18_chain_runs_nothing_twice {V : Type} [PyVal V] (w : World V) (s1 s2 : XSpec) (p : Nat) (σ : Results V) (args args2 : List V)
+    (hstart : xStart w s1 = some σ) (hσ : StartOK w.inst s1 σ) (hplain : ∀ x, s1.nonCache x = false)
+    (hin : s1.cacheIn = some p) (hsel : s2.sel = s1.sel) (hfrom2 : s2.fromCache = some p)
+    (hsucc : succeeded (xCfgOf w.inst s1 σ args) = true)
+    (hwf : WF (xCfgOf w.inst s1 σ args))
+    (hargs : ∀ x, argOf w.inst.dag.params args2 x = argOf w.inst.dag.params args x ∨
+                  argOf w.inst.dag.params args2 x = none) :
+    entered (seeded (xCfgOf w.inst s1 σ args) (reused w.inst s1 (xCfgOf w.inst s1 σ args))) = [] :=
+  VM.C18_chain_runs_nothing_twice w s1 s2 p σ args args2 hstart hσ hplain hin hsel hfrom2 hsucc hwf hargs
+
+/-- C18, write-back keeps what was there: an entry of the file an execution started from, not overridden by an argument
+    and not one of its `cache_deps_of` targets, is in the file it writes. -/
+theorem C18_write_back_keeps {V : Type} [PyVal V] (w : World V) (s : XSpec) (q : Nat) (f0 : File V) (args : List V)
+    (hfrom : s.fromCache = some q) (hfile : w.files q = some f0)
+    (x : TM.Node) (v : V) (hx : f0 x = some v) (hnc : s.nonCache x = false) (harg : argOf w.inst.dag.params args x = none) :
+    xStart w s = some (overlay w.inst.res f0) ∧
+      writeFile s (den (xCfgOf w.inst s (overlay w.inst.res f0) args)) x = some v :=
+  VM.C18_write_back_keeps w s q f0 args hfrom hfile x v hx hnc harg
 
 /-- C12 (values) / C19: restricting a table to a dependency-closed set of nodes (a target with its
     ancestors; what composed outputs need) does not change the value of any kept node. -/
